@@ -5,7 +5,7 @@
 From Coq Require Import NArith Lia Bool.
 From stdpp Require Import base list numbers option sets.
 From Gecs Require Import Prim ExtrBits ExtrVersion ExtrStorage ExtrQuery Storage Query World Borrow Run
-                         BitsFacts VersionFacts ConvFacts StorageInv StorageResolve StorageHist StorageOps RunFacts WorldInv.
+                         BitsFacts VersionFacts ConvFacts StorageInv StorageResolve StorageHist StorageOps RunFacts WorldInv LoopFacts.
 Local Open Scope nat_scope.
 Set Default Proof Using "Type".
 
@@ -165,4 +165,49 @@ Proof.
       rewrite (probe_arch_unstored cfg s HI e Hk ltac:(congruence) (Hc Hid)); [done|].
       intros Hin. rewrite Forall_forall in Hlf. by apply (Hlf e Hin).
   - destruct (N.eqb_spec (key_arch_id (fst e)) (da_id bd)) as [E|_]; [by rewrite E in Hid|]. done.
+Qed.
+
+(** destroy through one archetype with a dynamically typed handle carrying its id (no armed Drop fault):
+    a stored handle below the generation limits is removed - the new storage is [destroyed_state], an
+    invariant state in which the handle is stored nowhere - and the observation hands back exactly its
+    row; a handle that is not stored yields absence and changes nothing. *)
+Theorem step_destroy_any_arch cfg d qs st w r e b bd s : RInv d st ->
+  cur_world st = Some w -> get_href st KEnt r = Some e -> snd e <> 0%N -> key32 e ->
+  wd_archs d !! b = Some bd -> w !! b = Some s -> da_id bd = key_arch_id (fst e) -> eslot e < cap s -> drop_in st = 0%N ->
+  match list_find (fun x => x = e) (ents s) with
+  | Some (dd, _) => forall va vs', arch_next (wrapping cfg) (version s) = Some va -> slot_next (wrapping cfg) (snd e) = Some vs' ->
+      step cfg d qs st (ODestroy (LArch b) KEnt TAny r) =
+        Some (set_drop_in (set_world st (upd w b (destroyed_state cfg s (eslot e) dd e (last_ent s e) va vs'))) 0%N,
+              1%N :: default [] (snd <$> abs_at s dd))
+  | None => step cfg d qs st (ODestroy (LArch b) KEnt TAny r) = Some (st, [0%N])
+  end.
+Proof.
+  intros (HW & _ & _) Hcur Href Hv Hk Had Hs Hid Hc Hdin.
+  assert (HWI : WInv d w).
+  { unfold cur_world in Hcur. destruct (worlds st !! cur st) as [ow|] eqn:Hl; [|done]. cbn in Hcur. subst ow.
+    rewrite Forall_forall in HW. apply (HW (Some w)). by eapply elem_of_list_lookup_2. }
+  destruct (Forall2_lookup_l _ _ _ _ _ HWI Had) as (s' & Hs' & (HI & Haid & _)).
+  assert (Some s' = Some s) as [= ->] by (etrans; [symmetry; exact Hs'|exact Hs]).
+  assert (Hpre : forall X, step cfg d qs st (ODestroy (LArch b) KEnt TAny r) = X <->
+     match destroy cfg KEnt s e with
+     | Ok s1 (Some row) => let '(st2, obs) := after_drop d bd (set_world st (upd w b s1)) (1%N :: row) in ret st2 obs
+     | Ok s1 None => ret st [0%N]
+     | Panic p s1 => ret (set_world st (upd w b s1)) [2%N; pcode p]
+     | UB => None
+     end = X).
+  { intros X. cbn [step]. rewrite Hcur, Href. unfold make_key.
+    assert (raw_ok (snd e) = true) as -> by (unfold raw_ok, nonzero_new; destruct (N.eqb_spec (snd e) 0); done).
+    cbn [negb dispatch_arch]. rewrite Had. change arch_dispatch_checks_id with true. cbn [id_ok]. unfold conv_ok.
+    rewrite <- Hid, N.eqb_refl. cbn [fmap option_fmap option_map]. rewrite Had, Hs. done. }
+  destruct (list_find (fun x => x = e) (ents s)) as [[dd x]|] eqn:Hlf.
+  - apply list_find_Some in Hlf as (Hdd & Hx & _). subst x. intros va vs' Hva Hvs.
+    apply Hpre. rewrite (LoopFacts.destroy_live cfg s dd e HI Hdd), Hva, Hvs.
+    assert (Hd : dd < len s) by (rewrite <- (i_lents s HI); by eapply lookup_lt_Some).
+    destruct (abs_at_some s dd HI Hd) as (e' & row & Ha & He' & _). rewrite Ha. cbn [fmap option_fmap option_map snd default from_option id].
+    assert (row_of s dd = row) as ->.
+    { unfold abs_at in Ha. rewrite Hdd in Ha. unfold row_of. destruct (row_at (cols s) dd); by inversion Ha. }
+    unfold after_drop. cbn [drop_in set_world]. rewrite Hdin. cbn [drop_row N.eqb]. done.
+  - apply list_find_None in Hlf. apply Hpre.
+    assert (Hn : e ∉ ents s) by (intros Hin; rewrite Forall_forall in Hlf; by apply (Hlf e Hin)).
+    unfold destroy. cbn [resolve_key]. rewrite (resolve_entity_unstored cfg s HI e Hk ltac:(congruence) Hc Hn). done.
 Qed.
